@@ -806,6 +806,8 @@ def inline_new_members(trees, shape_all):
                         if isinstance(t, ast.Name):
                             stored.add(t.id)
     # (setattr with a computed name sets table-driven data fields; it cannot define the new member of a pinned class)
+    from .encreq import session_functions
+    sess_fns = session_functions(trees, {q.split(".")[-1] for sh in shape_all.values() for q in sh["functions"]})
     props, methods = {}, AnyReceiver()
     methods.classes = {n for n, ds in defs.items() if any(isinstance(d, ast.ClassDef) for d in ds)}
     for mname, tree in trees.items():
@@ -820,7 +822,7 @@ def inline_new_members(trees, shape_all):
             for m in c.body:
                 if not isinstance(m, ast.FunctionDef) or f"{c.name}.{m.name}" in pinned_fns:
                     continue
-                if m.name in pinned_attrs or m.name in stored or len(defs.get(m.name, ())) != 1 or m.name.startswith("__"):
+                if m.name in pinned_attrs or m.name in stored or len(defs.get(m.name, ())) != 1 or m.name.startswith("__") or m.name in sess_fns:
                     continue
                 decs = [norm_dec(d) for d in m.decorator_list]
                 if decs == ["property"]:
@@ -877,7 +879,7 @@ def inline_new_members(trees, shape_all):
                       and st.name not in pinned_attrs and len(defs.get(st.name, ())) == 1 and not st.decorator_list):
                   continue
               h = Helper(st)
-              if not h.usable():
+              if not h.usable() or st.name in sess_fns:
                   continue
               prepared = False
               for oname, otree in trees.items():
@@ -987,14 +989,17 @@ def inline_helpers(tree, shape, keep=frozenset()):
     inlined = []
     # candidate helpers: new module-level functions and new methods
     helpers, cls_helpers_by_class = {}, {}
+    from .encreq import session_functions
+    sess_fns = session_functions({"": tree}, {q.split(".")[-1] for q in pinned_fns})   # (they stay calls: tpmsa.encreq evaluates them)
     for st in tree.body:
-        if isinstance(st, ast.FunctionDef) and st.name not in pinned_fns:
+        if isinstance(st, ast.FunctionDef) and st.name not in pinned_fns and st.name not in sess_fns:
             h = Helper(st)
             if h.usable():
                 helpers[st.name] = h
         elif isinstance(st, ast.ClassDef):
             for m in st.body:
-                if isinstance(m, ast.FunctionDef) and f"{st.name}.{m.name}" not in pinned_fns and st.name in {q.split(".")[0] for q in pinned_fns}:
+                if isinstance(m, ast.FunctionDef) and f"{st.name}.{m.name}" not in pinned_fns and st.name in {q.split(".")[0] for q in pinned_fns} \
+                        and m.name not in sess_fns:
                     if [norm_dec(d) for d in m.decorator_list] == ["staticmethod"]:
                         bare = copy.deepcopy(m)
                         bare.decorator_list = []
